@@ -237,7 +237,30 @@ def _source_line_expanded(src, line_1based, col_1based):
     return "".join(out), remapped
 
 
+PARSE_FAULT = {"calls": 0, "at": None, "kind": None, "fired": 0}
+
+
+def arm_parse_fault(at=None, kind=None):
+    """Fault injection at the parser seam: the `at`-th parse() call from now on fails the way the native
+    call can fail (allocation failure -> MemoryError, interrupt -> KeyboardInterrupt), after do_parse has
+    already reset the per-parse fields of its global state.  arm_parse_fault() disarms."""
+    PARSE_FAULT.update(calls=0, at=at, kind=kind)
+
+
 def parse(text):
+    if PARSE_FAULT["at"] is not None:
+        PARSE_FAULT["calls"] += 1
+        if PARSE_FAULT["calls"] == PARSE_FAULT["at"]:
+            PARSE_FAULT["at"] = None
+            PARSE_FAULT["fired"] += 1
+            # bindings.cpp:do_parse stores the text and clears comments / syntax error before it builds anything
+            _state["text"] = text
+            _state["epoch"] += 1
+            _state["comments"] = []
+            _state["error"] = None
+            if PARSE_FAULT["kind"] == "kbdint":
+                raise KeyboardInterrupt("(injected)")
+            raise MemoryError("(injected)")
     res = _request(text)
     if "crash" in res:
         raise RuntimeError("parser stand-in crashed: " + res["crash"])
@@ -286,7 +309,7 @@ def install():
     m = types.ModuleType(MODULE_NAME)
     m.ParseNode = ParseNode
     m.TerminalNode = TerminalNode
-    m.parse = parse
+    m.parse = lambda text: parse(text)     # late-bound: the stand-in's parse may be instrumented
     m.get_input_text = get_input_text
     m.get_comments = get_comments
     m.get_syntax_error = get_syntax_error
